@@ -19,7 +19,7 @@ Singles == SetToSeq({x \in {<<r, <<a>>>> : r \in ResultRows, a \in Single} :
                         /\ (x[2][1] \in KindRows => x[1] = "int")})
 Funcs == [i \in 1..Len(Lists) |-> [kind |-> "plain", result |-> Results[(i % Len(Results)) + 1], params |-> Lists[i], ndef |-> 0, tmpl |-> FALSE, gen |-> FALSE]]
          \o [i \in 1..Len(Singles) |-> [kind |-> "plain", result |-> Singles[i][1], params |-> Singles[i][2], ndef |-> 0, tmpl |-> FALSE, gen |-> FALSE]]
-Wide == [language |-> "c++", funcs |-> Funcs, class |-> TRUE, derived |-> FALSE, ns |-> TRUE,
+Wide == [language |-> "c++", funcs |-> Funcs, class |-> TRUE, derived |-> TRUE, ns |-> TRUE,
          opts |-> [F_CFI |-> FALSE, debug |-> TRUE, doxygen |-> TRUE, literalinclude |-> FALSE,
                    show_splicer_comments |-> TRUE, line |-> 72, wrap_c |-> TRUE,
                    wrap_python |-> FALSE, wrap_lua |-> FALSE, wrap_fortran |-> TRUE]]
